@@ -51,7 +51,7 @@ CHECKS["C08"] = ("Routing.tla",
 
 CHECKS["C03"] = ("Range.tla, RangeOps.tla, TraceRange.tla, RangeSym.tla (Apalache)",
     "TLC exhaustive model check of the parse_range pipeline (extract, satisfiability, order, sort, merge loop) against "
-    "Classify / CanonicalOut / ExactUnion; every input rendered in 4 header syntaxes to the real parse_range; large "
+    "Classify / CanonicalOut / ExactUnion; every input rendered in 5 header syntaxes to the real parse_range; large "
     "random range sets validated by TLC against TraceRange.tla with their own numbers; arbitrary text for class/canonicity; "
     "the pre-repair mechanism (Fixed=FALSE) kept as a witness that must violate the invariants; Apalache decides CanonicalOut and "
     "ExactUnion on RangeSym.tla symbolically for all natural sizes and numbers (up to 3 specs)",
